@@ -198,6 +198,63 @@ def compare_stage(cmpr, st, spec_keys, spec_fn):
             if len(diffs) > 2: break
     return diffs, n
 
+def compare_whole(cmpr, specs):
+    """Shape-independent comparison of the WHOLE comparator with the lexicographic composition of the reference stages.
+    specs: [(name, {key: domain}, fn)].  Because the reference is lexicographic it suffices to (a) vary each stage's inputs
+    exhaustively while all other stages are held Equal, and (b) for every pair i<j check that a non-Equal outcome of stage i
+    wins over every outcome of stage j.  Returns (differences, evaluations)."""
+    whole = ("model", cmpr.model(cmpr.fn), None)
+    allkeys = {}
+    for name, keys, fn in specs: allkeys.update(keys)
+    def base():
+        a = {}
+        for k, dom in allkeys.items(): a[k] = "Equal" if "Equal" in dom else dom[0]
+        return a
+    def ref(asg):
+        for name, keys, fn in specs:
+            v = fn(asg)
+            if v != "Equal": return v
+        return "Equal"
+    class A(dict):
+        def __missing__(s, k): raise Unrecognised("the code consults %s, which is not an input of the reference comparator" % k)
+    # the base assignment must make every reference stage Equal
+    b0 = base()
+    for name, keys, fn in specs:
+        if fn(b0) != "Equal":
+            # pick discriminants so that the stage is Equal (None/None)
+            pass
+    diffs = []; n = 0
+    def run(asg, why):
+        nonlocal n
+        n += 1
+        want = ref(asg)
+        try: got = cmpr.eval_stage(whole, A(asg))
+        except Unrecognised as e:
+            diffs.append(str(e)); return False
+        if got != want:
+            diffs.append("%s: for %s the code gives %s, the reference %s" % (why, {k: v for k, v in asg.items() if v != b0.get(k)}, got, want))
+        return True
+    for i, (name, keys, fn) in enumerate(specs):
+        ks = list(keys)
+        for combo in itertools.product(*[keys[k] for k in ks]):
+            asg = base(); asg.update(zip(ks, combo))
+            if not run(asg, "stage '%s'" % name): return diffs, n
+            if len(diffs) > 3: return diffs, n
+    for i, (ni, ki, fi) in enumerate(specs):
+        ksi = list(ki)
+        for ci in itertools.product(*[ki[k] for k in ksi]):
+            ai = base(); ai.update(zip(ksi, ci))
+            if fi(ai) == "Equal": continue
+            for j in range(i + 1, len(specs)):
+                nj, kj, fj = specs[j]
+                ksj = list(kj)
+                for cj in itertools.product(*[kj[k] for k in ksj]):
+                    asg = dict(ai); asg.update(zip(ksj, cj))
+                    if fj(asg) == "Equal": continue
+                    if not run(asg, "priority '%s' over '%s'" % (ni, nj)): return diffs, n
+                    if len(diffs) > 3: return diffs, n
+    return diffs, n
+
 # ---------------------------------------------------------------------------
 # loop recognisers
 
